@@ -26,7 +26,8 @@ type secSym struct {
 
 func newSecSym(w *World, nbytes int) *secSym {
 	it := newCryptoInterp(w)
-	it.Premise = it.T.one // decide symbolic branches semantically (BEARER <= 31 and DIRECTION <= 1 hold by construction)
+	it.T.Max = 3000000
+
 	s := &secSym{it: it, st: it.NewState(), nbytes: nbytes}
 	for i := range s.key {
 		s.key[i] = it.SrcBV(fmt.Sprintf("key[%d]", i), 8)
@@ -330,7 +331,9 @@ func checkNEA(c *cryptoCtx, tier string) {
 			}
 			c.r.Site("out.nea")
 			ok, msg := true, ""
-			if !pc.ok || pc.n != cdiv(L, 32) {
+			if !pc.ok || pc.calls != 1 {
+				ok, msg = false, fmt.Sprintf("LENGTH=%d: the keystream does not come from exactly one call of the verified generator (%d calls)", L, pc.calls)
+			} else if pc.n != cdiv(L, 32) {
 				ok, msg = false, fmt.Sprintf("LENGTH=%d: %d keystream words requested, the standard needs %d", L, pc.n, cdiv(L, 32))
 			}
 			var out []BV
@@ -538,3 +541,121 @@ func checkWrapper(c *cryptoCtx, wrapper string, algs map[int]string, macLen int)
 }
 
 var _ = types.Typ
+
+// checkCipherCallers (drv.callers): the state-advancing functions of SNOW 3G and ZUC are entered
+// only along the verified driver: key/IV loading and the one-off discarded clock happen exactly
+// once per (key, IV) because nothing else can call them.
+func checkCipherCallers(c *cryptoCtx) {
+	allowed := map[string][]string{
+		snowPkg + ".newSnow3g":                             {snowPkg + ".GetKeyStream"},
+		"(*" + snowPkg + ".snow3g).generateKeystream":      {snowPkg + ".GetKeyStream"},
+		"(*" + snowPkg + ".snow3g).clockFsm":               {snowPkg + ".newSnow3g", "(*" + snowPkg + ".snow3g).generateKeystream"},
+		"(*" + snowPkg + ".snow3g).lfsrInitializationMode": {snowPkg + ".newSnow3g"},
+		"(*" + snowPkg + ".snow3g).lfsrKeystreamMode":      {"(*" + snowPkg + ".snow3g).generateKeystream"},
+		"(*" + zucPkg + ".Lfsr).initialization":            {zucPkg + ".Zuc"},
+		zucPkg + ".generateKeystream":                      {zucPkg + ".Zuc"},
+		"(*" + zucPkg + ".Br).bitReorganization":           {"(*" + zucPkg + ".Lfsr).initialization", zucPkg + ".generateKeystream"},
+		"(*" + zucPkg + ".Fsm).nonlinF":                    {"(*" + zucPkg + ".Lfsr).initialization", zucPkg + ".generateKeystream"},
+		"(*" + zucPkg + ".Lfsr).state":                     {"(*" + zucPkg + ".Lfsr).initialization", zucPkg + ".generateKeystream"},
+	}
+	found := map[string]bool{}
+	for fn := range c.w.AllFuncs() {
+		if fn.Pkg == nil || !IsRepoPkg(fn.Pkg.Pkg) || fn.Blocks == nil {
+			continue
+		}
+		caller := fn.String()
+		if p := fn.Parent(); p != nil {
+			caller = p.String()
+		}
+		for _, b := range fn.Blocks {
+			for _, ins := range b.Instrs {
+				var callee *ssa.Function
+				if ci, ok := ins.(ssa.CallInstruction); ok {
+					callee = ci.Common().StaticCallee()
+				}
+				// a protected function taken as a value escapes the rule
+				for _, op := range ins.Operands(nil) {
+					if f, ok := (*op).(*ssa.Function); ok && f != callee {
+						if _, prot := allowed[f.String()]; prot {
+							c.r.Site("drv.callers")
+							c.r.Fail("drv.callers", SSAFuncName(fn), f.Name()+" as value", ins.Pos(), "the cipher step "+f.Name()+" is taken as a function value: its callers can no longer be enumerated", nil)
+						}
+					}
+				}
+				if callee == nil {
+					continue
+				}
+				al, prot := allowed[callee.String()]
+				if !prot {
+					continue
+				}
+				found[callee.String()] = true
+				c.r.Site("drv.callers")
+				ok := false
+				for _, a := range al {
+					ok = ok || a == caller
+				}
+				if !ok {
+					c.r.Fail("drv.callers", SSAFuncName(fn), callee.Name(), ins.Pos(), "the cipher state function "+callee.Name()+" is entered from "+fn.Name()+", outside the verified driver (key/IV loading and the discarded first clock must happen exactly once per key and IV)", nil)
+				} else {
+					c.r.OK("drv.callers")
+				}
+			}
+		}
+	}
+	for k := range allowed {
+		if !found[k] {
+			c.r.Fail("drv.callers", k, "anchor", 0, "protected cipher function not found or never called: "+k, nil)
+		}
+	}
+}
+
+
+// checkCipherPurity (pure.no-state): the output of a cipher / MAC function is a function of its
+// arguments alone: it writes no package-level (or unknown) memory, keeps no pointer in
+// package-level state and returns nothing that shares memory with it (E4 root tracing over the
+// transitive callees).  A cached cipher context that survives the call is the typical violation.
+func checkCipherPurity(c *cryptoCtx, names [][2]string) {
+	e := NewEffects(c.w)
+	var fns []*ssa.Function
+	for _, n := range names {
+		if fn, _ := c.fn(n[0], n[1]); fn != nil {
+			fns = append(fns, fn)
+		}
+	}
+	e.Summaries(fns)
+	for _, fn := range fns {
+		c.r.Site("pure.no-state")
+		s := e.Summary(fn)
+		name := SSAFuncName(fn)
+		if s == nil {
+			c.r.Fail("pure.no-state", name, "summary", fn.Pos(), "no effect summary", nil)
+			continue
+		}
+		bad := false
+		for root, site := range s.Mods {
+			switch root.Kind {
+			case "global", "extglobal", "unknown", "freevar":
+				bad = true
+				c.r.Fail("pure.no-state", name, "writes "+root.String(), site.Pos, "writes memory that outlives the call: "+root.String()+" ("+site.What+" in "+site.Fn+")", nil)
+			}
+		}
+		for _, rt := range s.Retains {
+			if rt.Dst.Kind == "global" {
+				bad = true
+				c.r.Fail("pure.no-state", name, "stores into "+rt.Dst.Name, rt.Pos, "a pointer is kept in package-level state "+rt.Dst.Name, nil)
+			}
+		}
+		for i, rs := range s.Results {
+			for root := range rs {
+				if root.Kind == "global" {
+					bad = true
+					c.r.Fail("pure.no-state", name, fmt.Sprintf("result %d aliases %s", i, root.Name), fn.Pos(), "a result shares memory with package-level state "+root.Name, nil)
+				}
+			}
+		}
+		if !bad {
+			c.r.OK("pure.no-state")
+		}
+	}
+}
